@@ -444,6 +444,15 @@ class World:
     async def op_requeue(self, op: dict, ev: dict) -> None:
         await self._terminal(op, ev, "requeue")
 
+    async def op_reconnect(self, op: dict, ev: dict) -> None:
+        """connect() called again on a broker that is connected (a second Connection / Repid app sharing the broker object does
+        that; the call is idempotent by design): nothing a client holds or waits for may be affected."""
+        client = op.get("client", "c0")
+        if client not in self.conns or client in self.dead_clients or self.kind == "redis":
+            ev["skipped"] = True  # (Redis: connect() runs maintenance - that is the `maintenance` op with its own oracle)
+            return
+        await self.conns[client].message_broker.connect()
+
     async def op_pause(self, op: dict, ev: dict) -> None:
         """ConsumerT.pause(): consumption pauses; nothing may be lost, duplicated or reordered by it."""
         c = self._cons(op)
